@@ -95,6 +95,13 @@ class Check:
     def run_one(self, ch: Choices) -> RunOutcome:
         raise NotImplementedError
 
+    def begin_case(self) -> None:
+        """Reset per-case simulator state (called before every run_one)."""
+
+    def run_case(self, ch: Choices) -> RunOutcome:
+        self.begin_case()
+        return self.run_one(ch)
+
 
 # ---------------------------------------------------------------------------
 
@@ -166,7 +173,7 @@ def _worker(
             seed = derive_seed(base_seed, check.PROPERTY, idx)
             ch = Choices(seed=seed)
             faulthandler.dump_traceback_later(check.RUN_TIMEOUT, exit=True)
-            out = check.run_one(ch)
+            out = check.run_case(ch)
             faulthandler.cancel_dump_traceback_later()
             summary["runs"] += 1
             summary["sim_time"] += out.sim_time
@@ -197,7 +204,7 @@ def _worker(
 
                 def still_fails(cand: list[int]) -> bool:
                     try:
-                        o = check.run_one(Choices(replay=cand))
+                        o = check.run_case(Choices(replay=cand))
                     except Exception:
                         return False
                     return any(v.key() == target for v in o.violations)
@@ -215,7 +222,7 @@ def _worker(
                         max_tests=check.SHRINK_TESTS,
                         deadline=lambda: time.time() > t_end,
                     )
-                final = check.run_one(Choices(replay=minimal))
+                final = check.run_case(Choices(replay=minimal))
                 faulthandler.cancel_dump_traceback_later()
                 fv = next((v for v in final.violations if v.key() == target), unknown)
                 summary["violation"] = {
@@ -460,7 +467,7 @@ def run_replay(check_cls, path: str) -> int:
     check = check_cls(rec.get("tier", "quick"))
     try:
         check.setup()
-        out = check.run_one(Choices(replay=rec["choices"]))
+        out = check.run_case(Choices(replay=rec["choices"]))
         check.teardown()
     finally:
         shutil.rmtree(scratch_root(), ignore_errors=True)
@@ -488,10 +495,10 @@ def run_selftest_determinism(check_cls, tier: str, base_seed: int, n: int) -> in
         check.setup()
         for idx in range(n):
             seed = derive_seed(base_seed, check.PROPERTY, idx)
-            o1 = check.run_one(Choices(seed=seed))
+            o1 = check.run_case(Choices(seed=seed))
             c2 = Choices(seed=seed)
-            o2 = check.run_one(c2)
-            o3 = check.run_one(Choices(replay=c2.values))
+            o2 = check.run_case(c2)
+            o3 = check.run_case(Choices(replay=c2.values))
             d = (o1.digest, o2.digest, o3.digest)
             v = tuple(sorted(x.key() for x in o1.violations))
             if not (d[0] == d[1] == d[2]) or not o1.digest:
